@@ -25,8 +25,8 @@ def bounded(tier, seed):
 
 MANIFEST = dict(
     category="other",
-    text='Contract-based proof of the objective recomputation and of the linearisation helpers on the real source + bounded comparison with an exact explicit-route optimiser on a small universe (and, per instance, z3 over the captured MILP for all solver outcomes).',
+    text='Contract-based proofs on the real source: the k-LAE ENCODERS (DAG, cyclic, given weights: error columns bound |value - sum of weighted indicators| for every assignment), the objective handed to the solver, the objective recomputation, the linearisation helpers + bounded comparison with an exact explicit-route optimiser on a small universe + SymMILP completeness per instance.',
     design_ref="DESIGN.md section 3 / C07-C08",
     note="Optimality over all route choices is decided only by the bounded comparison with an exact enumeration oracle. Known open findings (repetition caps of the cyclic models) are listed in known_findings.json. Trusted: HiGHS, oracle.",
-    technique="contract-based deductive verification of building blocks and objective recomputation (PyVC) + bounded runtime-contract check vs exact enumeration oracle (+ SymMILP)",
+    technique='contract-based deductive verification of encoders, objective and building blocks (PyVC) + bounded runtime-contract check vs exact enumeration oracle (+ SymMILP)',
     engine="pyvc+rc+symmilp")
